@@ -686,36 +686,8 @@ impl<'b> InnerBucket<'b> {
         let mut b = bucket.borrow_mut();
         // Mark it as deleted in case there is still a Bucket or cursor with a reference to this bucket.
         b.deleted = true;
-        // check that the bucket wasn't just created and never comitted
-        let mut remaining_pages = Vec::new();
-        if b.meta.root_page != 0 {
-            // create a stack of pages to free and keep going until
-            // we've freed every reachable page starting from this bucket's root page
-            remaining_pages.push(b.meta.root_page);
-            while let Some(page_id) = remaining_pages.pop() {
-                let page = self.pages.page(page_id);
-                let num_pages = page.overflow + 1;
-                match page.page_type {
-                    // every branch element's page much be freed
-                    Page::TYPE_BRANCH => {
-                        page.branch_elements()
-                            .iter()
-                            .for_each(|b| remaining_pages.push(b.page));
-                    }
-                    Page::TYPE_LEAF => {
-                        // every nested bucket's pages must be freed
-                        page.leaf_elements().iter().for_each(|leaf| {
-                            if leaf.node_type == Node::TYPE_BUCKET {
-                                let meta: BucketMeta = leaf.value().into();
-                                remaining_pages.push(meta.root_page);
-                            }
-                        });
-                    }
-                    _ => (),
-                }
-                freelist.free(page_id, num_pages);
-            }
-        }
+        // free every page this bucket still owns
+        b.free_all_pages(freelist);
         // delete the element from this bucket
         let (exists, stack) = search(name.as_ref(), self.meta.root_page, self);
         let last = stack.last().unwrap();
@@ -736,6 +708,93 @@ impl<'b> InnerBucket<'b> {
             }
         } else {
             panic!("Did not find data for bucket we already deleted")
+        }
+    }
+
+    // Frees every committed page reachable from this bucket, as the transaction currently
+    // sees it. Pages of nested buckets that were already deleted in this transaction have
+    // been freed by that deletion and are no longer referenced from our nodes, so going
+    // through the nodes (where they exist) instead of the raw pages frees each page once.
+    fn free_all_pages(&self, freelist: &mut TxFreelist) {
+        // a bucket created in this transaction has no pages yet, and neither has anything in it
+        if self.meta.root_page == 0 {
+            return;
+        }
+        let mut remaining_pages = vec![self.meta.root_page];
+        while let Some(page_id) = remaining_pages.pop() {
+            let num_pages = self.pages.page(page_id).overflow + 1;
+            let mut nested: Vec<(Bytes<'b>, BucketMeta)> = Vec::new();
+            match self.page_node(PageNodeID::Page(page_id)) {
+                PageNode::Page(page) => match page.page_type {
+                    // every branch element's page much be freed
+                    Page::TYPE_BRANCH => {
+                        page.branch_elements()
+                            .iter()
+                            .for_each(|b| remaining_pages.push(b.page));
+                    }
+                    Page::TYPE_LEAF => {
+                        page.leaf_elements().iter().for_each(|leaf| {
+                            if leaf.node_type == Node::TYPE_BUCKET {
+                                nested.push((Bytes::Slice(leaf.key()), leaf.value().into()));
+                            }
+                        });
+                    }
+                    _ => (),
+                },
+                PageNode::Node(node) => match &node.borrow().data {
+                    NodeData::Branches(branches) => {
+                        branches.iter().for_each(|b| remaining_pages.push(b.page));
+                    }
+                    NodeData::Leaves(leaves) => {
+                        leaves.iter().for_each(|leaf| {
+                            if let Leaf::Bucket(name, meta) = leaf {
+                                nested.push((name.clone(), *meta));
+                            }
+                        });
+                    }
+                },
+            }
+            // every nested bucket's pages must be freed
+            for (name, meta) in nested {
+                match self.buckets.get(&name) {
+                    // this transaction has opened the nested bucket, so it may have deleted
+                    // buckets inside of it: ask it for its own view
+                    Some(b) => b.borrow().free_all_pages(freelist),
+                    None => Self::free_committed_pages(&self.pages, meta.root_page, freelist),
+                }
+            }
+            freelist.free(page_id, num_pages);
+        }
+    }
+
+    // Frees every page reachable from the given root page of an untouched bucket
+    fn free_committed_pages(pages: &Pages, root_page: PageID, freelist: &mut TxFreelist) {
+        if root_page == 0 {
+            return;
+        }
+        let mut remaining_pages = vec![root_page];
+        while let Some(page_id) = remaining_pages.pop() {
+            let page = pages.page(page_id);
+            let num_pages = page.overflow + 1;
+            match page.page_type {
+                Page::TYPE_BRANCH => {
+                    page.branch_elements()
+                        .iter()
+                        .for_each(|b| remaining_pages.push(b.page));
+                }
+                Page::TYPE_LEAF => {
+                    page.leaf_elements().iter().for_each(|leaf| {
+                        if leaf.node_type == Node::TYPE_BUCKET {
+                            let meta: BucketMeta = leaf.value().into();
+                            if meta.root_page != 0 {
+                                remaining_pages.push(meta.root_page);
+                            }
+                        }
+                    });
+                }
+                _ => (),
+            }
+            freelist.free(page_id, num_pages);
         }
     }
 
